@@ -153,4 +153,32 @@ what comes back is what `upload()` / `download()` / … raise in the caller -/
 def manager (T : Tables) (plan : List Task) : St × Option Exc :=
   boundedSubmit T (submission T plan) {}
 
+
+/-! ### the failure path of a submission task whose other tasks are still running (threads)
+
+`SubmissionTask._main`, after `_submit` raised: record the exception, wait for every future submitted so
+far, announce done.  The awaited futures may carry exceptions of either class (a part that was reading
+its body re-raises the recorded exception through `InterruptReader`); what the waiting loop lets through
+ends the path before `announce_done`. -/
+
+/-- the waiting loop: the first stored exception its `except` clauses do not swallow -/
+def waitLoop (rows : List Row) : List (Option Exc) → Option Exc
+  | [] => none
+  | none :: rest => waitLoop rows rest
+  | some e :: rest =>
+    match findHandler rows e with
+    | some r => if r.2.2.1 then some e else waitLoop rows rest
+    | none => some e
+
+/-- the steps named in `path` run in order until one raises; returns whether done was announced -/
+def failurePath (rows : List Row) (path : List String) (stored : List (Option Exc)) : Bool × Option Exc :=
+  match path with
+  | [] => (false, none)
+  | "announce_done" :: _ => (true, none)
+  | "_wait_for_all_submitted_futures_to_complete" :: rest =>
+    (match waitLoop rows stored with
+     | some e => (false, some e)
+     | none => failurePath rows rest stored)
+  | _ :: rest => failurePath rows rest stored
+
 end S3V.Serial
